@@ -278,6 +278,23 @@ func protoCases(rng *common.RNG, tier, prop string) []protoCase {
 				cs = append(cs, protoCase{"transform", aliasValue(sp, f), f, sp})
 			}
 		}
+		// every representation of the result (nil, empty non-nil, sub-slices, filters ...)
+		for _, sp := range resSpecs {
+			old := f
+			if old == "absent" {
+				old = "-"
+			}
+			if (old == "-") && sp != "res:nil" && sp != "res:empty" && sp != "res:repeat:2" {
+				continue
+			}
+			cs = append(cs, protoCase{"transform", resValue(sp, old), f, sp})
+		}
+		// Write with every kind of content reader
+		if f != "-" {
+			for _, sp := range readerSpecs {
+				cs = append(cs, protoCase{"write", readerValue(sp), f, sp})
+			}
+		}
 		if prop == "C07" {
 			continue
 		}
@@ -393,7 +410,13 @@ func runProtoCase(self, work string, m *lfModel, c protoCase, inject string) (im
 	fl, ok := flagsOfCall(c)
 	rules = traceRules(evs, fl, ok, result)
 	if m != nil && inject == "" {
-		ans := m.Ask1(fmt.Sprintf("ops %s %s %s", c.Call, c.Arg, c.File))
+		req := fmt.Sprintf("ops %s %s %s", c.Call, c.Arg, c.File)
+		if strings.HasPrefix(c.Helper, "rd:") {
+			// Write with a content reader: one write per delivered chunk, then the reader's error
+			chunks, rerr := readerModel(c.Helper)
+			req = fmt.Sprintf("ops writer %s:%d %s", chunks, b2i(rerr), c.File)
+		}
+		ans := m.Ask1(req)
 		o, f, t, e := canonModel(ans)
 		if e != nil {
 			return impl, ans, rules, raw, nil
